@@ -18,8 +18,10 @@ PROPERTIES = {
     ),
     "C11": dict(
         modules=["contracts.c11_clients"],
-        explanation="run-time base clients: value conversion, JSON request construction, (multipart separation), "
-                    "one shared contract instantiated for each of the four bundled clients",
+        bounded=[_bounded.lazy("contracts.c11_multipart", "bounded_separation"), _bounded.lazy("contracts.c11_multipart", "bounded_wire")],
+        explanation="run-time base clients: value conversion, JSON and multipart request construction, variables processing and the "
+                    "json/multipart/telemetry dispatchers (each proved against recording stand-ins of its callees), one shared contract "
+                    "instantiated for each of the four bundled clients; upload separation (separate_files) by the exhaustive bounded stand-in",
         assumptions=["bytes on the wire for multipart are httpx's", "interleavings inside httpx are outside this family"],
     ),
     "C06": dict(
